@@ -7,8 +7,13 @@
 (* document.Render, Document.Write); a step of render r executes its next  *)
 (* phase. Everything a render computes goes to its own context ctx[r] (the *)
 (* layoutContext / drawContext objects of the implementation); the global  *)
-(* tables (UA style sheets, initial values, hyphenation dictionaries) are  *)
-(* initialised before any render and only read.                            *)
+(* tables (UA style sheets, initial values) are initialised before any     *)
+(* render and only read. One table is filled lazily, as the hyphenation    *)
+(* dictionaries of text/hyphen are (under a lock, hence one atomic step):  *)
+(* `lazy` is "unset" in a fresh process and "loaded" after the first       *)
+(* layout that needs it; what is loaded does not depend on the render that *)
+(* loads it (LazyStable), so that Isolation holds from both initial values *)
+(* of `lazy` - a fresh process, or any history of previous renders.        *)
 (*                                                                         *)
 (* Isolation: whatever the interleaving and whatever was rendered before,  *)
 (* the output of a render is the output of a lone render of its document.  *)
@@ -22,19 +27,21 @@ EXTENDS Integers, Sequences, FiniteSets, TLC, Json
 
 CONSTANTS NRenders, NDocs, SharedCache
 
-VARIABLES docOf, pc, ctx, cache, globals, out, sched
-vars == <<docOf, pc, ctx, cache, globals, out, sched>>
+VARIABLES docOf, pc, ctx, cache, globals, out, sched, lazy, fresh
+vars == <<docOf, pc, ctx, cache, globals, out, sched, lazy, fresh>>
 
 R == 1..NRenders
 Phases == <<"parse", "layout", "draw">>
 G0 == [ua |-> "ua-sheet", initial |-> "initial-values"]
 \* what a phase computes from the document and the global tables
-Compute(ph, d, g) == <<ph, d, g.ua>>
+Compute(ph, d, g) == <<ph, d, g.ua>> \o (IF ph = "layout" THEN <<"dictionary">> ELSE <<>>)
+Loaded(l) == IF l = "unset" THEN "dictionary" ELSE l
 \* the output of a lone render of document d
 Ref(d) == <<Compute("parse", d, G0), Compute("layout", d, G0), Compute("draw", d, G0)>>
 
 Init == /\ docOf \in [R -> 1..NDocs] /\ pc = [r \in R |-> 1] /\ ctx = [r \in R |-> <<>>] /\ cache = <<>>
         /\ globals = G0 /\ out = [r \in R |-> <<>>] /\ sched = <<>>
+        /\ fresh \in BOOLEAN /\ lazy = IF fresh THEN "unset" ELSE "dictionary"
 Step(r) == /\ pc[r] <= Len(Phases)
            /\ LET ph == Phases[pc[r]]
                   \* with a shared cache, the layout phase reuses what the last render to go through it left
@@ -43,16 +50,20 @@ Step(r) == /\ pc[r] <= Len(Phases)
               /\ cache' = IF SharedCache /\ ph = "layout" THEN val ELSE cache
               /\ out' = IF pc[r] = Len(Phases) THEN [out EXCEPT ![r] = ctx'[r]] ELSE out
            /\ pc' = [pc EXCEPT ![r] = @ + 1] /\ sched' = Append(sched, r)
-           /\ UNCHANGED <<docOf, globals>>
+           /\ lazy' = IF Phases[pc[r]] = "layout" THEN Loaded(lazy) ELSE lazy
+           /\ UNCHANGED <<docOf, globals, fresh>>
 Next == \E r \in R : Step(r)
 Spec == Init /\ [][Next]_vars /\ WF_vars(Next)
 
 Done == \A r \in R : pc[r] > Len(Phases)
 GlobalsUnchanged == globals = G0
+\* the lazily filled table is written once, with a value that does not depend on who fills it
+LazyStable == [][lazy # "unset" => lazy' = lazy]_vars
+LazyValue == lazy \in {"unset", "dictionary"}
 Isolation == \A r \in R : pc[r] > Len(Phases) => out[r] = Ref(docOf[r])
 \* same document, same output: renders of one document agree with each other
 Deterministic == \A a, b \in R : (pc[a] > Len(Phases) /\ pc[b] > Len(Phases) /\ docOf[a] = docOf[b]) => out[a] = out[b]
 Terminates == <>Done
 
-Emit == Done => PrintT(ToJson([docs |-> docOf, sched |-> sched]))
+Emit == Done => PrintT(ToJson([docs |-> docOf, sched |-> sched, fresh |-> fresh]))
 =============================================================================
